@@ -166,9 +166,22 @@ def ob_bspline(ctx, D, stride, shape):
                 ctx.eq(out, ref.reshape((1, 1) + (1,) * (D - 1) + (-1,)), f"bspline {key} == analytic derivative / spacing")
             else:
                 ctx.eq(out, A[c, d] / s[d], f"bspline {key} == analytic derivative / spacing")
+    s0 = s.clone()  # references use the values given by the caller, whatever happens to the argument afterwards
     der2 = F.flow_derivatives(u, which=["du/dxx", "du/dxy"], mode="bspline", spacing=s, stride=stride)
-    ctx.eq(der2["du/dxx"], 2 * q[0] / (s[0] * s[0]), "bspline du/dxx == 2 q / sx^2")
+    ctx.eq(der2["du/dxx"], 2 * q[0] / (s0[0] * s0[0]), "bspline du/dxx == 2 q / sx^2")
     ctx.eq(der2["du/dxy"], torch.zeros(1), "bspline du/dxy == 0")
+    # the same spacing tensor reused over several calls and keys, in both orders (the iteration order of a key set is arbitrary)
+    for first, second in ((["du/dxy"], ["du/dxx"]), (["du/dxx"], ["du/dxy"]), (["dv/dxy"], ["du/dx", "dv/dx"])):
+        F.flow_derivatives(u, which=first, mode="bspline", spacing=s, stride=stride)
+        later = F.flow_derivatives(u, which=second, mode="bspline", spacing=s, stride=stride)
+        if "du/dxx" in later:
+            ctx.eq(later["du/dxx"], 2 * q[0] / (s0[0] * s0[0]), f"bspline du/dxx after {first[0]} with the same spacing tensor")
+        if "du/dx" in later:
+            t0 = 1 + torch.arange((shape[-1] - 3) * stride, dtype=torch.float32) / stride
+            for c, key in ((0, "du/dx"), (1, "dv/dx")):
+                ref = (A[c, 0] + 2 * q[c] * t0) / s0[0]
+                ctx.eq(later[key], ref.reshape((1, 1) + (1,) * (D - 1) + (-1,)), f"bspline {key} after {first[0]} with the same spacing tensor")
+    ctx.eq(s, s0, "bspline: the caller's spacing tensor is unchanged")
 
 
 def obligations(tier: str, seed: int):
